@@ -133,6 +133,9 @@ def _run_1d(case, R):
         R.skip("chain intensity below 1e-9: cell masses under the resolution of the closed forms")
         return
     positive = int(np.sum(rates > 1e-12 * lam_oracle))
+    # closed-form masses of a finite-activity measure are differences of distribution functions: their absolute rounding is on the
+    # scale of the total mass of the MODEL (which can be far larger than the mass the grid carries)
+    abs_floor = 4e-16 * float(mspec["params"]["intensity"]) if mspec["family"] in ("HEM", "MERTON") else 0.0
     for method in case["methods"]:
         R.klass(f"1d:{ctor}:{method}")
         R.klass("model:" + label)
@@ -174,7 +177,7 @@ def _run_1d(case, R):
                     R.violation(f"1d-{method}-origin-has-rate", f"{label}/{ctor}: the origin state has rate {obs[k]!r}", {"grid": g})
                 continue
             R.hit("rate_comparisons_1d")
-            tol = 1e-8 * rates[k] + 1e-12 * lam_oracle + 10 * errs[k] + tol_meas
+            tol = 1e-8 * rates[k] + 1e-12 * lam_oracle + 10 * errs[k] + tol_meas + abs_floor
             if obs[k] < -1e-13 * lam_oracle:
                 R.violation(f"1d-{method}-negative-rate", f"{label}/{ctor}: state {axis[k]!r} has negative rate {obs[k]!r}", {"grid": g})
             if not (abs(obs[k] - rates[k]) <= tol):
